@@ -88,6 +88,8 @@ class Opaque:
     def __init__(self, what): self.what = what
 
 
+SPEC_UFS = {'Fstate', 'Fnext', 'Fout', 'depth', 'dom', 'cidx', 'kidx', 'pidx', 'nearest'}
+SPEC_PREDS = {'dep', 'propagatable', 'clockable'}
 LIST_ATTRS = {'inPorts', 'outPorts', 'inOutPorts', 'sinks', 'sources', 'propagatables', 'clockables', 'listeners',
               'prepared', 'wires', 'data', 'ports', 'sourceToSink', 'sinkToSource'}
 DICT_ATTRS = {'children', '_wires', 'clockDrivers', 'parameters'}
@@ -115,6 +117,14 @@ class HeapExec(symexec.Executor):
         args = [ir.var(v) for v in vs]
         self.assumptions.append(ir.forall(vs, ir.eq(fresh.read(*args), ir.ite(c, a.read(*args), b.read(*args)))))
         return fresh
+
+    def oblige(self, kind, st, goal, node=None, note=''):
+        goal = ir.truth(goal)
+        if goal.op == 'and' and ('.inv.' in kind or kind.startswith('post')):
+            for i, g in enumerate(goal.args):
+                super().oblige('%s.%d' % (kind, i), st, g, node, note)
+            return
+        super().oblige(kind, st, goal, node, note)
 
     # ------------------------------------------------------------------ maps
     def fmap(self, st, name, arity):
@@ -175,7 +185,10 @@ class HeapExec(symexec.Executor):
             if attr in self.dict_attrs: return DictH(base, attr)
             if ('m:' + attr) in self.contracts or attr in self.contracts.get('__methods__', ()):
                 return symexec.BoundMethod(base, attr)
+            if attr.startswith('__'): attr = '#' + attr[2:]      # ghost fields are written o.__name in contracts
             return self.read_field(st, base, attr)
+        if isinstance(base, DictH) and attr == '__keys':
+            return ListH(base.owner, '#keys:' + base.attr)      # ghost: the dict's keys in iteration order
         if isinstance(base, (ListH, DictH, KeysH, StrConst)):
             return symexec.BoundMethod(base, attr)
         raise Unsupported('attribute .%s of %r (line %s)' % (attr, base, getattr(node, 'lineno', '?')))
@@ -279,6 +292,12 @@ class HeapExec(symexec.Executor):
                 return Opaque(nm)
             if nm in self.ghost:
                 return self.ghost[nm](self, st, *[self.ev(a, st) for a in n.args])
+            if nm == 'epoch':
+                return self.read_field(st, NONE, '#epoch')      # ghost: identifies the current wire-value map
+            if nm in SPEC_UFS:
+                return ir.uf('spec_' + nm, *[ir.as_int(self.ev(a, st)) for a in n.args])
+            if nm in SPEC_PREDS:
+                return ir.ufb('spec_' + nm, *[ir.as_int(self.ev(a, st)) for a in n.args])
             if nm in symexec.BUILTINS and nm not in ('len', 'range'):
                 return symexec.BUILTINS[nm](self, st, n, *[self.ev(a, st) for a in n.args])
             if ('f:' + nm) in self.contracts:
@@ -360,6 +379,12 @@ class HeapExec(symexec.Executor):
         for m in c.modifies:
             self.havoc_map(st, m)
         res = None
+        if c.returns == 'list':
+            nm = '#ret:%s@%s' % (c.name, getattr(n, 'lineno', 0))
+            res_list = ListH(NONE, nm)
+            self.havoc_map(st, 'len:' + nm); self.havoc_map(st, 'el:' + nm)
+            self.assumptions.append(ir.implies(st.pc, ir.ge(self.list_len(st, res_list), 0)))
+            return res_list
         if c.returns:
             res = self.fresh('ret_' + c.name.split('.')[-1])
         prev_old[0] = pre
@@ -505,6 +530,9 @@ class HeapExec(symexec.Executor):
                         elif isinstance(b, ast.Name): maps.add('@local:' + b.id)
                     c = self.contracts.get('m:' + m)
                     if c is not None: maps.update(c.modifies)
+                    if isinstance(n.func.value, ast.Name):
+                        c = self.contracts.get('m:%s.%s' % (n.func.value.id, m))
+                        if c is not None: maps.update(c.modifies)
                 if isinstance(n, ast.Call) and isinstance(n.func, ast.Name):
                     c = self.contracts.get('f:' + n.func.id)
                     if c is not None: maps.update(c.modifies)
